@@ -1,5 +1,6 @@
 import SigHook.Model.Origin
 import SigHook.Gen.Platform
+import SigHook.Model.Skel
 /-!
 # C17 — Reported signal origin equals the kernel's facts, and is absent when unknown
 
@@ -184,5 +185,12 @@ example : extract ⟨14, 128, 4242, 1000⟩ = ⟨14, none, .kernel⟩ := by deci
 example : extract ⟨17, 1, 77, 1000⟩ = ⟨17, some (77, 1000), .chldExited⟩ := by decide
 example : extract ⟨10, 1, 77, 1000⟩ = ⟨10, none, .unknown⟩ := by decide   -- CLD code, not SIGCHLD
 example : extract ⟨14, -2, 77, 1000⟩ = ⟨14, none, .unknown⟩ := by decide  -- SI_TIMER
+
+/-- **C17.extract_skeleton** — tie to the source (regenerated): `Origin::extract` classifies the record, reads the
+process fields iff the cause has one, and the one exception ("all zero means none") is guarded by the macOS
+`cfg!`: on Linux, zeros the kernel filled in are reported as zeros. The signal number is `si_signo`. -/
+theorem C17_extract_skeleton :
+    SigHook.skelOf "src/low_level/siginfo.rs" "extract@sighook_signal_cause" =
+      ["cause", "has_process", "process.extract", "macos.guard", "signo"] := by decide
 
 end SigHook.Origin
